@@ -243,6 +243,15 @@ fn run(ctx: &RunCtx) -> Report {
         _ => rng.range(2500, 6000) * MS,
     };
     let target = *item1.target().as_bytes();
+    // 1 run in 3 (own random stream): *warm cache* - the writer looked the target up a moment ago, so both puts
+    // start from the cached closest nodes: the first is in its store phase at once, and the second meets it there
+    let mut wrng = Rng::new(crate::rng::key(ctx.seed, &[crate::rng::tag("c17-warm-cache")]));
+    if wrng.chance(1, 3) {
+        let o = sim.get_closest_nodes(writer, target);
+        sim.run_ops(&[o], sim.now() + 60 * SEC);
+        sim.run_for(wrng.range(0, 5) * SEC);
+        report.probe("warm_cache_runs", 1);
+    }
     let op1 = sim.put_mutable(writer, item1.clone(), None);
     let t0 = sim.now();
     // sometimes a find_node for the same target runs in between (its result replaces the cached
@@ -421,7 +430,11 @@ fn run(ctx: &RunCtx) -> Report {
                 .map(|k| (k.int_field("seq").unwrap_or(-1), k.bytes_field("v").map(|v| v.to_vec()).unwrap_or_default()))
                 .collect()
         });
-        if r2 == Res::Ok && !sent.iter().any(|(s, v)| *s == s2 && v.as_slice() == v2) {
+        // ... and a call refused with ConflictRisk (a purely local verdict) has NOT: the caller was told that
+        // nothing was written
+        if r2 == Res::ConflictRisk && relation != 0 && sent.iter().any(|(s, v)| *s == s2 && v.as_slice() == v2) {
+            report.violate("rule-table", "refused-item-was-sent-to-the-storers", format!("the second call returned ConflictRisk, yet store requests carrying its item (seq {s2}) went out; {what}"));
+        } else if r2 == Res::Ok && !sent.iter().any(|(s, v)| *s == s2 && v.as_slice() == v2) {
             report.violate("rule-table", "second-call-ok-but-its-item-never-sent", format!("the second call returned Ok but no store request carried its item (seq {s2}); {what}"));
         } else if r1 == Res::Ok && !(in_flight && relation >= 2 && cas_kind == 1) && !ambiguous && !sent.iter().any(|(s, v)| *s == s1 && v.as_slice() == b"first value") {
             report.violate("rule-table", "first-call-ok-but-its-item-never-sent", format!("the first call returned Ok but no store request carried its item (seq {s1}); {what}"));
